@@ -39,14 +39,11 @@ THEOREMS = [
     "Params.described_parameter_row", "Params.typed_parameter_row", "Params.type_field_shown", "Params.type_of_self_old_counterexample",
     "Params.lookup_dictSet", "Params.paramsDict_lookup",
     "Attrs.var_text_held", "Attrs.type_text_held", "Attrs.shownType_own",
-    "Napoleon.getMinIndent_le", "Napoleon.dedent_removes_only_space", "Property.inherited_holds_all_partial",
-    "Property.inherited_holds_all_counterexample",
+    "Napoleon.getMinIndent_le", "Napoleon.dedent_removes_only_space", "Property.inherited_holds_all",
+    "Property.inherited_holds_all_old_counterexample", "Docstring.pair_duplicate_reported", "Params.type_overwrite_reported",
+    "Attrs.var_overwrite_reported",
 ]
 PARTIAL = {
-    "Property.inherited_holds_all_partial":
-        "hypothesis: the base property's docstring has its own description. Documented by `@return:` only, `_handlePropertyDef` empties "
-        "`attr.docstring` and an override without docstring inherits nothing (`inherited_holds_all_counterexample`, open finding "
-        "inherited-property:return-only-docstring-not-inherited).",
     "Docstring.every_tag_rendered_or_reported_partial":
         "hypothesis `inScope`: a `type` field with a name in a module/class docstring names a variable that is assigned or "
         "documented by ivar/cvar/var — otherwise the type goes to an Attribute without kind that is never displayed (open "
@@ -1607,6 +1604,9 @@ def oracle_document(ctx: Ctx, fmt: str, doc, ser, full: str, src: str, r) -> Non
                                 ctx.fail("field:type-of-constructor-parameter-in-class-docstring-hidden",
                                          {**inp, "field": [k, arg, f["type"]], "attr": r["attrs"].get(arg)},
                                          f"{fmt}: the type given for constructor parameter '{arg}' in the class docstring is shown nowhere and not reported")
+                            elif arg and any(g is not f and g["kind"] == k and g["arg"] == arg and g.get("type") for g in ser["fields"]) and \
+                                    any("was already given" in l for l in r["reports"]):
+                                pass        # two `type` fields for one name: the replaced one is reported (08a4c10)
                             elif arg and any(g is not f and g["kind"] == k and g["arg"] == arg and g.get("type") for g in ser["fields"]):
                                 # the same name documented twice, each time with a type: two `type` fields for one name, the last wins
                                 ctx.fail("field:duplicate-field-first-text-silently-dropped", {**inp, "field": [k, arg, f["type"]], "cell": name},
@@ -1774,7 +1774,8 @@ def impl_pair(desc_tag: str, type_tag: str, heading: str, events: List[str], fmt
     mk = (lambda tag, text: "@%s: %s" % (tag, text)) if fmt == "epytext" else (lambda tag, text: ":%s: %s" % (tag, text))
     fields = "\n".join("    " + mk(desc_tag if e[0] == "d" else type_tag, "TEXT" + e[1:]) for e in events)
     src = 'def f(a):\n    """\n    Doc.\n\n%s\n    """\n' % fields
-    with contextlib.redirect_stdout(io.StringIO()):
+    buf = io.StringIO()
+    with contextlib.redirect_stdout(buf):
         system = model.System()
         system.options.docformat = fmt
         b = system.systemBuilder(system)
@@ -1783,12 +1784,13 @@ def impl_pair(desc_tag: str, type_tag: str, heading: str, events: List[str], fmt
         h = flatten(epydoc2stan.format_docstring(system.allobjects["m.f"]))
     rows = field_table(dom(h)).get(heading)
     if rows is None:
-        return "absent"
+        return "absent dups=0"
     row = rows[0]
     body = row[-1]
     typ = row[0] if len(row) > 1 else ""
     num = lambda cell: (re.search(r"TEXT(\d+)", cell).group(1) if "TEXT" in cell else "-")
-    return "body=%s type=%s" % (num(body), num(typ))
+    dups = sum(1 for l in buf.getvalue().split("\n") if "was already given" in l)
+    return "body=%s type=%s dups=%d" % (num(body), num(typ), dups)
 
 
 def stream_pairs(ctx: Ctx) -> None:
@@ -1807,7 +1809,7 @@ def stream_pairs(ctx: Ctx) -> None:
                     if sorted(kinds) == ["d", "t"]:
                         d = next(e[1:] for e in events if e[0] == "d")
                         t = next(e[1:] for e in events if e[0] == "t")
-                        if out != "body=%s type=%s" % (d, t):
+                        if out != "body=%s type=%s dups=0" % (d, t):
                             ctx.fail("field:paired-%s-text-lost-by-order" % desc_tag.rstrip("s"),
                                      {"pair": [desc_tag, type_tag], "events": events, "docformat": fmt, "shown": out},
                                      f"{fmt}: @{type_tag}/@{desc_tag} in the order {events}: the entry shows {out}")
@@ -1940,6 +1942,8 @@ def impl_params(sig, events: List[Tuple[str, int, int]], fmt: str = "epytext") -
         b.buildModules()
         h = flatten(epydoc2stan.format_docstring(system.allobjects[full]))
     ids = {v: k for k, v in PNAMES.items()}
+    field_lines = [i for i, l in enumerate(src.split("\n"), 1) if re.match(r"\s*[@:](param|keyword|type) ", l)]
+    type_line_names = {ln: n for ln, (k, n, t) in zip(field_lines, events)}     # source line of every field
     rows = []
     for row in field_table(dom(h)).get("Parameters", []):
         name = row[0] if len(row) > 1 else ""
@@ -1957,6 +1961,9 @@ def impl_params(sig, events: List[Tuple[str, int, int]], fmt: str = "epytext") -
         m = re.search(r'Parameter "(\w+)" is documented as keyword', l)
         if m:
             reps.append("askw:%d" % ids[m.group(1)])
+        m = re.search(r'm:(\d+): Field "type" was already given', l)
+        if m:
+            reps.append("duptype:%d" % type_line_names[int(m.group(1))])
     return "rows %s | reports %s" % (" ".join(rows) or "-", " ".join(reps) or "-")
 
 
@@ -2167,7 +2174,8 @@ def impl_extract(fields: List[Tuple[str, Optional[int], int]]) -> str:
     missing = [str(i) for i, (k, n, t) in enumerate(fields) if n is None and k != "o"]
     nmiss = sum(1 for l in buf.getvalue().split("\n") if "Missing field name" in l)
     assert nmiss == len(missing), (nmiss, missing)
-    return "attrs %s | missing %s" % (" ".join(attrs) or "-", ",".join(missing) or "-")
+    dups = sorted(int(m.group(1)) - 5 for m in re.finditer(r"m:(\d+): Field \"\w+ \w+\" was already given", buf.getvalue()))
+    return "attrs %s | missing %s | dup %s" % (" ".join(attrs) or "-", ",".join(missing) or "-", ",".join(map(str, dups)) or "-")
 
 
 def impl_showntype(own: List[int], ann: Optional[int]) -> str:
